@@ -1,7 +1,379 @@
-//! C05 oracle: multiset conservation across compaction; GC policy evaluator.
-use crate::exec::Exec;
+//! C05 oracle: every compaction step conserves the multiset of (key, timestamp, value|tombstone)
+//! entries unless it is a top-level garbage collection, and a garbage collection discards only
+//! what the configured policy permits and never changes the current value of a key.
+//!
+//! The policy evaluator below is written from the documentation of `GarbageCollectionPolicy`,
+//! not from its implementation.
 
-pub struct Snapshot {}
+use std::collections::{BTreeMap, BTreeSet};
 
-pub fn snapshot(_ex: &mut Exec) -> Result<Snapshot, String> { Ok(Snapshot{}) }
-pub fn check_after(_ex: &mut Exec, _pre: Snapshot) -> Result<(), String> { Ok(()) }
+use sst::{Cursor, Sst, SstOptions};
+
+use crate::exec::{fmt_key, Exec};
+
+pub type Entry = (Vec<u8>, u64, Option<Vec<u8>>);
+
+#[derive(Clone, Debug)]
+pub struct FileDump {
+    pub level: usize,
+    pub first_key: Vec<u8>,
+    pub last_key: Vec<u8>,
+    pub entries: Vec<Entry>,
+}
+
+pub struct Snapshot {
+    pub files: BTreeMap<String, FileDump>,
+}
+
+pub fn dump_file(path: &std::path::Path) -> Result<Vec<Entry>, String> {
+    let sst = Sst::<sst::file_manager::FileHandle>::new(SstOptions::default(), path)
+        .map_err(|e| format!("open {}: {e}", path.display()))?;
+    let mut c = sst.cursor();
+    c.seek_to_first().map_err(|e| format!("{e}"))?;
+    let mut out = Vec::new();
+    loop {
+        c.next().map_err(|e| format!("{e}"))?;
+        match c.key_value() {
+            Some(kv) => out.push((kv.key.to_vec(), kv.timestamp, kv.value.map(|v| v.to_vec()))),
+            None => break,
+        }
+    }
+    Ok(out)
+}
+
+pub fn snapshot(ex: &mut Exec) -> Result<Snapshot, String> {
+    let store = ex.store.as_ref().ok_or("store closed")?;
+    let levels = store.tree().verif_levels();
+    let mut files = BTreeMap::new();
+    for (li, l) in levels.iter().enumerate() {
+        for f in l.iter() {
+            let hex = f.0.hexdigest();
+            let entries = match ex.dump_cache.get(&hex) {
+                Some(e) => e.clone(),
+                None => {
+                    let path = ex.root.join("sst").join(format!("{hex}.sst"));
+                    let e = dump_file(&path)?;
+                    ex.dump_cache.insert(hex.clone(), e.clone());
+                    e
+                }
+            };
+            files.insert(
+                hex,
+                FileDump {
+                    level: li,
+                    first_key: f.1.clone(),
+                    last_key: f.2.clone(),
+                    entries,
+                },
+            );
+        }
+    }
+    Ok(Snapshot { files })
+}
+
+////////////////////////////////////////////// policy //////////////////////////////////////////////
+
+#[derive(Clone, Debug, PartialEq, Eq)]
+pub enum Policy {
+    Versions(u64),
+    Ttl(u64),
+    Any(Vec<Policy>),
+    All(Vec<Policy>),
+}
+
+pub fn parse_policy(s: &str) -> Result<Policy, String> {
+    fn skip_ws(s: &str) -> &str {
+        s.trim_start()
+    }
+    fn parse(s: &str) -> Result<(Policy, &str), String> {
+        let s = skip_ws(s);
+        for (kw, is_versions) in [("versions", true), ("ttl_micros", false)] {
+            if let Some(rest) = s.strip_prefix(kw) {
+                let rest = skip_ws(rest);
+                let rest = rest.strip_prefix('=').ok_or("expected =")?;
+                let rest = skip_ws(rest);
+                let end = rest.find(|c: char| !c.is_ascii_digit()).unwrap_or(rest.len());
+                let n: u64 = rest[..end].parse().map_err(|_| "expected number")?;
+                return Ok((
+                    if is_versions {
+                        Policy::Versions(n)
+                    } else {
+                        Policy::Ttl(n)
+                    },
+                    &rest[end..],
+                ));
+            }
+        }
+        for (kw, is_any) in [("any", true), ("all", false)] {
+            if let Some(rest) = s.strip_prefix(kw) {
+                let rest = skip_ws(rest);
+                let mut rest = rest.strip_prefix('(').ok_or("expected (")?;
+                let mut parts = Vec::new();
+                loop {
+                    rest = skip_ws(rest);
+                    if let Some(r) = rest.strip_prefix(')') {
+                        rest = r;
+                        break;
+                    }
+                    let (p, r) = parse(rest)?;
+                    parts.push(p);
+                    rest = skip_ws(r);
+                    if let Some(r) = rest.strip_prefix(',') {
+                        rest = r;
+                    }
+                }
+                return Ok((
+                    if is_any {
+                        Policy::Any(parts)
+                    } else {
+                        Policy::All(parts)
+                    },
+                    rest,
+                ));
+            }
+        }
+        Err(format!("cannot parse policy at {s:?}"))
+    }
+    let (p, rest) = parse(s)?;
+    if !rest.trim().is_empty() {
+        return Err(format!("trailing input {rest:?}"));
+    }
+    Ok(p)
+}
+
+/// The *versions* of one key, newest first, as the documentation defines them: a value is a
+/// version; of a run of consecutive tombstones only the oldest is a version.
+/// Input: the key's entries newest first (timestamp descending).  Output: indices of versions.
+fn versions_of(entries: &[(u64, bool)]) -> Vec<usize> {
+    let mut out = Vec::new();
+    let mut i = 0;
+    while i < entries.len() {
+        if entries[i].1 {
+            out.push(i);
+            i += 1;
+        } else {
+            let mut j = i;
+            while j + 1 < entries.len() && !entries[j + 1].1 {
+                j += 1;
+            }
+            out.push(j);
+            i = j + 1;
+        }
+    }
+    out
+}
+
+/// Indices (into `entries`, newest first) the policy protects.  `entries`: (timestamp, is_value).
+fn protected(policy: &Policy, entries: &[(u64, bool)], now: u64) -> BTreeSet<usize> {
+    match policy {
+        Policy::Versions(n) => versions_of(entries)
+            .into_iter()
+            .take(*n as usize)
+            .collect(),
+        Policy::Ttl(m) => {
+            let threshold = now.saturating_sub(*m);
+            versions_of(entries)
+                .into_iter()
+                .filter(|i| entries[*i].0 >= threshold)
+                .collect()
+        }
+        Policy::Any(ps) => {
+            let mut acc = BTreeSet::new();
+            for p in ps {
+                acc.extend(protected(p, entries, now));
+            }
+            acc
+        }
+        Policy::All(ps) => {
+            let mut it = ps.iter();
+            let mut acc = match it.next() {
+                Some(p) => protected(p, entries, now),
+                None => return BTreeSet::new(),
+            };
+            for p in it {
+                let other = protected(p, entries, now);
+                acc = acc.intersection(&other).copied().collect();
+            }
+            acc
+        }
+    }
+}
+
+/// Entries of one key that the garbage collection must retain.  A protected tombstone with no
+/// protected value beneath it shadows nothing at the oldest level and is not required.
+fn required(policy: &Policy, entries: &[(u64, bool)]) -> BTreeSet<usize> {
+    let mut prot = protected(policy, entries, 0);
+    let last_value = prot.iter().copied().filter(|i| entries[*i].1).max();
+    prot.retain(|i| entries[*i].1 || last_value.map(|lv| *i < lv).unwrap_or(false));
+    prot
+}
+
+fn current_value(entries: &[Entry]) -> Option<&Vec<u8>> {
+    // entries of one key, any order
+    entries
+        .iter()
+        .max_by_key(|e| e.1)
+        .and_then(|e| e.2.as_ref())
+}
+
+fn multiset(files: &[&FileDump]) -> Vec<Entry> {
+    let mut v: Vec<Entry> = files.iter().flat_map(|f| f.entries.iter().cloned()).collect();
+    v.sort();
+    v
+}
+
+pub fn check_after(ex: &mut Exec, pre: Snapshot) -> Result<(), String> {
+    let post = snapshot(ex)?;
+    let removed: Vec<&FileDump> = pre
+        .files
+        .iter()
+        .filter(|(k, _)| !post.files.contains_key(*k))
+        .map(|(_, v)| v)
+        .collect();
+    let added: Vec<&FileDump> = post
+        .files
+        .iter()
+        .filter(|(k, _)| !pre.files.contains_key(*k))
+        .map(|(_, v)| v)
+        .collect();
+    if removed.is_empty() && added.is_empty() {
+        // trivial move (or an output identical to its input): nothing can have changed
+        ex.probes.hit("c05_trivial_moves");
+        return Ok(());
+    }
+    ex.probes.hit("c05_rewriting_compactions");
+    if removed.len() >= 2 {
+        ex.probes.hit("c05_multi_input_compactions");
+    }
+    if added.len() >= 2 {
+        ex.probes.hit("c05_multi_file_outputs");
+        let mut outs: Vec<&&FileDump> = added.iter().collect();
+        outs.sort_by(|a, b| a.first_key.cmp(&b.first_key));
+        if outs.windows(2).any(|w| w[0].last_key == w[1].first_key) {
+            ex.probes.hit("c05_key_versions_straddle_two_outputs");
+        }
+    }
+    let m_in = multiset(&removed);
+    let m_out = multiset(&added);
+    if m_in == m_out {
+        return Ok(());
+    }
+    let top = crate::exec::NUM_LEVELS - 1;
+    // Only a compaction into the top level may discard.  With no output file at all the upper
+    // level cannot be read off the result; such a step is judged by the GC rules below.
+    let is_gc = added.iter().all(|f| f.level == top);
+    let describe = |e: &Entry| {
+        format!(
+            "{}@{}={}",
+            fmt_key(&e.0),
+            e.1,
+            match &e.2 {
+                Some(v) => format!("value({}B)", v.len()),
+                None => "tombstone".to_string(),
+            }
+        )
+    };
+    // entries invented or modified: out must be a sub-multiset of in
+    {
+        let mut pool: BTreeMap<&Entry, i64> = BTreeMap::new();
+        for e in m_in.iter() {
+            *pool.entry(e).or_insert(0) += 1;
+        }
+        for e in m_out.iter() {
+            let c = pool.entry(e).or_insert(0);
+            *c -= 1;
+            if *c < 0 {
+                ex.violate(
+                    "C05",
+                    if is_gc { "gc-output-has-entry-not-in-inputs" } else { "compaction-output-has-entry-not-in-inputs" },
+                    format!("output entry {} is not among the inputs", describe(e)),
+                );
+                return Ok(());
+            }
+        }
+    }
+    if !is_gc {
+        let lost: Vec<String> = m_in
+            .iter()
+            .filter(|e| !m_out.contains(e))
+            .take(3)
+            .map(describe)
+            .collect();
+        ex.violate(
+            "C05",
+            "non-gc-compaction-lost-entries",
+            format!(
+                "compaction below the top level changed the multiset: {} entries in, {} out; lost e.g. {:?}",
+                m_in.len(),
+                m_out.len(),
+                lost
+            ),
+        );
+        return Ok(());
+    }
+    ex.probes.hit("c05_gcs_with_discard");
+    // A top-level file that did not change but overlaps the compaction's key range was an input
+    // whose output came out identical; it takes part in the per-key version counts.
+    let lo = removed.iter().map(|f| &f.first_key).min().cloned().unwrap_or_default();
+    let hi = removed.iter().map(|f| &f.last_key).max().cloned().unwrap_or_default();
+    let unchanged: Vec<&FileDump> = post
+        .files
+        .iter()
+        .filter(|(k, f)| pre.files.contains_key(*k) && f.level == top && f.first_key <= hi && lo <= f.last_key)
+        .map(|(_, v)| v)
+        .collect();
+    let mut ins: Vec<&FileDump> = removed.clone();
+    ins.extend(unchanged.iter().copied());
+    let mut outs: Vec<&FileDump> = added.clone();
+    outs.extend(unchanged.iter().copied());
+    let mut by_key_in: BTreeMap<Vec<u8>, Vec<Entry>> = BTreeMap::new();
+    for e in multiset(&ins) {
+        by_key_in.entry(e.0.clone()).or_default().push(e);
+    }
+    let mut by_key_out: BTreeMap<Vec<u8>, Vec<Entry>> = BTreeMap::new();
+    for e in multiset(&outs) {
+        by_key_out.entry(e.0.clone()).or_default().push(e);
+    }
+    let policy_str = ex.h.opt("--gc-policy").unwrap_or("versions = 1").to_string();
+    let policy = parse_policy(&policy_str)?;
+    for (key, ents) in by_key_in.iter_mut() {
+        ents.sort_by(|a, b| b.1.cmp(&a.1));
+        let shape: Vec<(u64, bool)> = ents.iter().map(|e| (e.1, e.2.is_some())).collect();
+        let req = required(&policy, &shape);
+        let empty = Vec::new();
+        let out = by_key_out.get(key).unwrap_or(&empty);
+        for i in req.iter() {
+            if !out.contains(&ents[*i]) {
+                ex.violate(
+                    "C05",
+                    "gc-dropped-entry-the-policy-protects",
+                    format!(
+                        "policy `{policy_str}` protects {} (key history newest-first: {:?}) but the garbage collection discarded it",
+                        describe(&ents[*i]),
+                        shape
+                    ),
+                );
+                return Ok(());
+            }
+        }
+        let before = current_value(ents);
+        let after = current_value(out);
+        if before != after {
+            ex.violate(
+                "C05",
+                "gc-changed-current-value",
+                format!(
+                    "key {}: current value before the garbage collection {:?}B, after {:?}B (policy `{policy_str}`)",
+                    fmt_key(key),
+                    before.map(|v| v.len()),
+                    after.map(|v| v.len())
+                ),
+            );
+            return Ok(());
+        }
+        if shape.len() >= 3 {
+            ex.probes.hit("c05_gc_keys_with_3plus_versions");
+        }
+    }
+    Ok(())
+}
